@@ -117,7 +117,8 @@ def prepare(case, work):
     # prior destination state
     prior = []
     if case["prior"] == "unrelated":
-        prior = [("//z:other", 3, None, False), ("//:q", 9, "c" * 40, True)]
+        # incl. a package whose name equals the name of restore's staging directory
+        prior = [("//z:other", 3, None, False), ("//:q", 9, "c" * 40, True), ("//archive-tmp:e", 4, None, False)]
     elif case["prior"] == "same_task":
         prior = [(r[0], r[1] + 1000, None, False) for r in rows[:2]]
     if prior:
